@@ -90,12 +90,32 @@ class Recorder(object):
         self.valid = []       # (name, ('ret', bool) | ('exc', tag))
         self.esums = []       # one dict per evaluate_sum call
         self.cur = None
+        self.in_eval = 0      # depth inside calc.evaluator (its own check_scope is part of the evaluator oracle)
 
     def __enter__(self):
         ig, mh, ex, cex = lib()
+        from mitxgraders.helpers.calc.expressions import MathExpression
+        self.mexpr = MathExpression
         self.saved = (ig.evaluator, ig.parse, mh.parse, ig.is_valid_variable_name, ig.SumGrader.evaluate_sum)
+        self.saved_cs = MathExpression.check_scope
         rec = self
         o_eval, o_parse_ig, o_parse_mh, o_valid, o_esum = self.saved
+        o_cs = self.saved_cs
+
+        def check_scope(self_, variables, functions, suffixes):
+            cur = rec.cur
+            if rec.in_eval or cur is None:
+                return o_cs(self_, variables, functions, suffixes)
+            entry = {'expr': getattr(self_, 'expression', None), 'scope': list(variables.keys())}
+            try:
+                out = o_cs(self_, variables, functions, suffixes)
+            except Exception as e:
+                entry['out'] = ('exc', e)
+                cur['scope_checks'].append(entry)
+                raise
+            entry['out'] = ('ret', None)
+            cur['scope_checks'].append(entry)
+            return out
 
         def parse_wrap(orig):
             def parse(formula):
@@ -117,6 +137,7 @@ class Recorder(object):
             cur = rec.cur
             if cur is not None and not allow_inf:
                 entry['n'] = variables.get(cur['var']) if isinstance(variables, dict) else None
+            rec.in_eval += 1
             try:
                 out = o_eval(formula, *a, **k)
             except Exception as e:
@@ -124,6 +145,8 @@ class Recorder(object):
                 if cur is not None:
                     cur['evals'].append(entry)
                 raise
+            finally:
+                rec.in_eval -= 1
             entry['out'] = ('ret', out[0])
             entry['funcs'] = set(out[1].functions_used)
             if cur is not None:
@@ -142,7 +165,7 @@ class Recorder(object):
         def evaluate_sum(self_, summand_str, lower_str, upper_str, summation_var, varscope=None, funcscope=None):
             cur = {'k': len(rec.esums), 'summand': summand_str, 'lower': lower_str, 'upper': upper_str,
                    'var': summation_var, 'scope': list(varscope.keys()) if varscope is not None else [],
-                   'values': dict(varscope) if varscope is not None else {}, 'evals': []}
+                   'values': dict(varscope) if varscope is not None else {}, 'evals': [], 'scope_checks': []}
             rec.esums.append(cur)
             rec.cur = cur
             try:
@@ -160,11 +183,13 @@ class Recorder(object):
         mh.parse = parse_wrap(o_parse_mh)
         ig.is_valid_variable_name = valid
         ig.SumGrader.evaluate_sum = evaluate_sum
+        MathExpression.check_scope = check_scope
         return self
 
     def __exit__(self, *a):
         ig, mh, ex, cex = lib()
         ig.evaluator, ig.parse, mh.parse, ig.is_valid_variable_name, ig.SumGrader.evaluate_sum = self.saved
+        self.mexpr.check_scope = self.saved_cs
         return False
 
 
@@ -350,6 +375,8 @@ Inductive lim_entry := L (expr : str) (scope : list str) (i : nat) (out : outcom
 (* summand evaluations of one evaluate_sum call at n = start, start+step, ... (the points range() produced) *)
 Inductive term_entry := T (i : nat) (expr var : str) (scope : list str) (start step : Z) (outs : list (outcome (list Q))).
 Inductive parse_entry := P (expr : str) (out : outcome unit) (fact factorial : bool).
+(* parse(summand).check_scope(scope + {var: 0}, ...) inside evaluate_sum *)
+Inductive scope_entry := SC (expr var : str) (scope : list str) (out : outcome unit).
 (* one evaluate_sum call of the implementation: who (true = author), sample, evaluation points in order,
    whether the call returned, and the sum it returned *)
 Inductive esum_obs := E (author : bool) (i : nat) (start step : Z) (count : nat) (completed : bool) (value : list Q) (scale : Q).
@@ -357,7 +384,7 @@ Inductive esum_obs := E (author : bool) (i : nat) (start step : Z) (count : nat)
 Record ccase := mkCase {
   k_cfg : config; k_tol : tolerance; k_inputs : list str;
   k_parse : list parse_entry; k_valid : list (str * outcome bool);
-  k_lim : list lim_entry; k_term : list term_entry;
+  k_lim : list lim_entry; k_scope : list scope_entry; k_term : list term_entry;
   k_obs : option (outcome bool);        (* None: the implementation's outcome is not expressible / not compared *)
   k_skip_verdict : bool;                (* verdict within the guard band of the tolerance *)
   k_esums : list esum_obs
@@ -381,6 +408,13 @@ Fixpoint o_lim_go (t : list lim_entry) (s : str) (sc : list str) (i : nat) : out
   | L e sc' i' o :: r =>
       if Nat.eqb i i' then (if str_eqb e s then (if same_names sc sc' then o else o_lim_go r s sc i) else o_lim_go r s sc i)
       else o_lim_go r s sc i
+  end.
+Fixpoint o_scope_go (t : list scope_entry) (s : str) (sc : list str) (v : str) : outcome unit :=
+  match t with
+  | [] => Raise EUnrecorded
+  | SC e v' sc' o :: r =>
+      if str_eqb e s then (if str_eqb v v' then (if same_names sc sc' then o else o_scope_go r s sc v) else o_scope_go r s sc v)
+      else o_scope_go r s sc v
   end.
 Fixpoint o_term_go (t : list term_entry) (s : str) (sc : list str) (v : str) (n : Z) (i : nat) : outcome (list Q) :=
   match t with
@@ -406,15 +440,15 @@ Fixpoint o_term_go (t : list term_entry) (s : str) (sc : list str) (v : str) (n 
 
 Definition m_grade (c : ccase) : outcome bool :=
   grade [] qv_add (qv_within (k_tol c)) (o_parses c) (o_fact c) (o_factorial c)
-        (o_lim_go (k_lim c)) (o_term_go (k_term c)) (o_valid_go (k_valid c)) (k_cfg c) (k_inputs c).
+        (o_lim_go (k_lim c)) (o_scope_go (k_scope c)) (o_term_go (k_term c)) (o_valid_go (k_valid c)) (k_cfg c) (k_inputs c).
 
 Definition m_plan (c : ccase) (author : bool) (fields : list str) (i : nat) : outcome (Z * Z * Z) :=
-  evaluate_sum_plan (o_parses c) (o_fact c) (o_factorial c) (o_lim_go (k_lim c)) (k_cfg c)
+  evaluate_sum_plan (o_parses c) (o_fact c) (o_factorial c) (o_lim_go (k_lim c)) (o_scope_go (k_scope c)) (k_cfg c)
     (f_summand fields) (f_lower fields) (f_upper fields) (f_var fields)
     (if author then c_scope (k_cfg c) else student_scope (k_cfg c)) i.
 
 Definition m_sum (c : ccase) (author : bool) (fields : list str) (i : nat) : outcome (list Q) :=
-  evaluate_fields [] qv_add (o_parses c) (o_fact c) (o_factorial c) (o_lim_go (k_lim c)) (o_term_go (k_term c))
+  evaluate_fields [] qv_add (o_parses c) (o_fact c) (o_factorial c) (o_lim_go (k_lim c)) (o_scope_go (k_scope c)) (o_term_go (k_term c))
     (k_cfg c) fields (if author then c_scope (k_cfg c) else student_scope (k_cfg c)) i.
 
 Definition m_fields (c : ccase) : option (list str) :=
@@ -652,10 +686,23 @@ def case_term(run):
         valid_entries = []
         for name, (k, v) in rec.valid:
             valid_entries.append('(%s, %s)' % (nm.s(name), '(Ret %s)' % core.boollit(v) if k == 'ret' else '(Raise %s)' % v))
-        lims, terms, esums = [], [], []
+        lims, terms, esums, scopes = [], [], [], []
         sums = {}
         for e in rec.esums:
             i, author = e['k'] // 2, e['k'] % 2 == 0
+            for sc_ in e.get('scope_checks', []):
+                kind, val = sc_['out']
+                if kind == 'ret':
+                    ot = '(Ret tt)'
+                else:
+                    t = err_tag(val)
+                    if t in ('EMitxOther', '(ESummation MUnknown)'):
+                        raise Unencodable('scope check error class')
+                    ot = '(Raise %s)' % t
+                ent = 'SC %s %s %s %s' % (nm.s(e['summand']), nm.s(e['var']),
+                                         nm.sc([x for x in sc_['scope'] if x != e['var']]), ot)
+                if ent not in scopes:
+                    scopes.append(ent)
             idx, acc, scale, outs, tscope, texpr = [], [], Fraction(1), [], None, None
             for ev_ in e['evals']:
                 kind, val = ev_['out']
@@ -740,9 +787,9 @@ def case_term(run):
             num_pyv(cfg.get('even_odd', 0)), num_pyv(cfg.get('infty_val', 1e3)), num_pyv(cfg.get('infty_val_fact', 80)),
             cfg.get('samples', 2), cfg.get('failable_evals', 0), nm.sc(scope),
             'default_reserved' if reserved == default_reserved() else '[%s]' % ';'.join(nm.s(x) for x in reserved)))
-        body = ('mkCase %s %s [%s]\n     [%s]\n     [%s]\n     [%s]\n     [%s]\n     %s %s\n     [%s]' % (
+        body = ('mkCase %s %s [%s]\n     [%s]\n     [%s]\n     [%s]\n     [%s]\n     [%s]\n     %s %s\n     [%s]' % (
             cfg_term, tol_term(tol), ';'.join(nm.s(x) for x in inputs),
-            '; '.join(parse_entries), '; '.join(valid_entries), ';\n      '.join(lims), ';\n      '.join(terms),
+            '; '.join(parse_entries), '; '.join(valid_entries), ';\n      '.join(lims), '; '.join(scopes), ';\n      '.join(terms),
             'None' if obs is None else '(Some %s)' % obs, core.boollit(skip), ';\n      '.join(esums)))
     except Unencodable as e:
         info['unencodable'] = str(e)
@@ -1227,12 +1274,7 @@ def oracle(run):
 
     if kind == 'student-error':
         if not (st == 'exc' and is_student_facing(r)):
-            site, trig = None, None
-            if meta['what'] == 'instructor-var' and meta['field'] == 2 and not ref_indices(('int', meta['lo']), ('int', meta['hi']), meta['eo'], 0):
-                site, trig = 'SumGrader.evaluate_sum', 'summand never evaluated when the index set is empty'
-            if meta['what'] == 'dummy-has-meaning' and meta['bad'] in spec['cfg'].get('instructor_vars', []):
-                site, trig = 'SumGrader.gen_evaluations', 'instructor variable removed from the scope before the dummy-variable check'
-            fail('%s (%r) did not raise a student-facing error: %s' % (meta['what'], meta['bad'], repr(r)[:200]), site=site, trigger=trig)
+            fail('%s (%r) did not raise a student-facing error: %s' % (meta['what'], meta['bad'], repr(r)[:200]))
         return fails
 
     if kind == 'author-error':
@@ -1487,11 +1529,10 @@ def classify_known(w, known):
     return None
 
 
-REFUTED = ['C19_author_failure_is_config_error_refuted', 'C19_instructor_var_rejected_refuted',
-           'C19_dummy_with_meaning_rejected_refuted']
+REFUTED = ['C19_author_failure_is_config_error_refuted']
 TRUSTED = [
     'translator translate/summation.py (Python ast -> Gallina over Verif.Lib.SummationPy.pyv; templates for the statements it does not translate)',
-    'correspondence harness harness/props/c19.py: wraps calc.evaluator / calc.parse / is_valid_variable_name / SumGrader.evaluate_sum at '
+    'correspondence harness harness/props/c19.py: wraps calc.evaluator / calc.parse / MathExpression.check_scope / is_valid_variable_name / SumGrader.evaluate_sum at '
     'run time and replays the recorded oracle answers in the Coq model; floats enter Coq as exact dyadic rationals; sums compared within '
     '1e-9 * (1 + sum of |terms|); verdicts within 1e-9 of the tolerance boundary are guard-banded',
     'modelled, not verified: the expression parser and evaluator (oracles), numpy norm / float rounding (exact rationals in the model), '
@@ -1511,8 +1552,9 @@ LEVEL_TEXT = ('Theorems for all integer limits, all cutoffs, every parity settin
               'parity filter), reversal and renaming; the verdict is correct iff every sample is within tolerance; limit, dummy-variable, '
               'blank-field, input-position and author-failure error classes. perform_summation and the limit checks are regenerated from '
               'integralgrader.py on every run; the grader flow is tied by differential correspondence (trace level: evaluation points and sums).')
-LEVEL_NOTE = ('Exact rationals; evaluator, parser and tolerance norm are oracles; three full-strength error statements are refuted by the faithful '
-              'model (author failures outside the guarded evaluation, summand never evaluated on an empty range, instructor variable usable as '
-              'dummy variable) and kept as _refuted witnesses next to the _partial theorems; no axioms.')
+LEVEL_NOTE = ('Exact rationals; evaluator, parser, check_scope and tolerance norm are oracles; one full-strength error statement is refuted by the '
+              'faithful model (failures of the author\'s own sum outside the guarded evaluation are reported to the student: four known findings) '
+              'and kept as a _refuted witness next to the _partial theorem; the instructor-variable statements are full since the fix commits '
+              '390fac8 / e54e9a1; no axioms.')
 TECHNIQUE = 'Coq proof (induction on ranges/lists, lia) + source-to-Gallina translator + vm_compute trace correspondence + exact reference oracle'
 DESIGN_REF = 'DESIGN.md section 3, C19'
